@@ -6,6 +6,8 @@
 int drv_sched(int argc, char **argv);
 int drv_sweep(int argc, char **argv);
 int drv_cells(int argc, char **argv);
+int drv_kinds(int argc, char **argv);
+int drv_invalid(int argc, char **argv);
 int drv_xvar(int argc, char **argv);
 int drv_cpusel(int argc, char **argv);
 int drv_selftest(int argc, char **argv);
@@ -28,6 +30,10 @@ main(int argc, char **argv)
                 return drv_cpusel(argc - 2, argv + 2);
         if (!strcmp(argv[1], "xvar"))
                 return drv_xvar(argc - 2, argv + 2);
+        if (!strcmp(argv[1], "kinds"))
+                return drv_kinds(argc - 2, argv + 2);
+        if (!strcmp(argv[1], "invalid"))
+                return drv_invalid(argc - 2, argv + 2);
         if (!strcmp(argv[1], "cells"))
                 return drv_cells(argc - 2, argv + 2);
         if (!strcmp(argv[1], "sweep"))
